@@ -249,6 +249,17 @@ def big_worker(job):
             budget = max(128 * 1024, stack_kib * 1024 // 4)
             nvars = rng.choice([0, 40, 900, 2000, 4000]) if stack_kib < 8192 else rng.choice([0, 4000, 12000])
             env_extra = {"V%d" % j: "" for j in range(nvars)}
+            # part of the budget may be taken by a few large variables; the command may be named by a relative path
+            pad = int(budget * rng.choice([0, 0, 0.2, 0.4])) if nvars <= 900 else 0
+            for j in range(0, pad, 100000):                    # (one environment string may not exceed 128 KiB either)
+                env_extra["VERIF_PAD%d" % j] = "p" * min(100000, pad - j)
+            cmd = None
+            if rng.random() < 0.35:
+                lk = os.path.join(wd, "recl")
+                if not os.path.lexists(lk):
+                    os.symlink(common.REC, lk)
+                cmd = [rng.choice(["./recl", "././recl"])]
+                st.inc("big_input_runs_with_relative_command_path")
             total = int(budget * rng.uniform(1.3, 3.2))
             toks, size = [], 0
             dist = rng.choice(["tiny", "short", "mixed"])
@@ -259,13 +270,14 @@ def big_worker(job):
                 size += ln + 1
             per_line = rng.choice([1, 1, 5, 50])
             data = b"".join(b" ".join(toks[j:j + per_line]) + b"\n" for j in range(0, len(toks), per_line))
-            opts = rng.choice([[], [], ["-n", str(len(toks) + 5)], ["-L", str(len(toks) + 5)], ["-x"], ["-r"]])
+            opts = rng.choice([[], [], ["-n", str(len(toks) + 5)], ["-L", str(len(toks) + 5)], ["-x"], ["-r"],
+                               ["-s", str(rng.choice([budget * 4, 50000000, 1 << 31]))]])       # a legal -s far above what the system allows
             initial = rng.choice([[], [b"init"], [b"a", b"b c"]])
             lim = stack_kib * 1024
 
             def pre():
                 resource.setrlimit(resource.RLIMIT_STACK, (lim, resource.RLIM_INFINITY))
-            r = xref.run_xargs(wd, opts, initial, data, env_extra=env_extra, preexec_fn=pre, timeout=300)
+            r = xref.run_xargs(wd, opts, initial, data, env_extra=env_extra, preexec_fn=pre, timeout=300, cmd=cmd)
             st.inc("evaluations")
             st.inc("big_input_runs")
             st.add("distinct", ("big", stack_kib, nvars, dist, tuple(opts), len(toks)))
@@ -283,7 +295,8 @@ def big_worker(job):
             if got != toks or not ok_prefix or r.rc != 0 or r.timed_out:
                 first = next((j for j, (a_, b_) in enumerate(zip(got, toks)) if a_ != b_), min(len(got), len(toks)))
                 st.violate("batching", None, {"case": "input larger than one command line, no binding limit option", "opts": opts,
-                                              "stack_limit_kib": stack_kib, "environment_variables": nvars, "arguments": len(toks),
+                                              "stack_limit_kib": stack_kib, "environment_variables": nvars, "environment_padding_bytes": pad,
+                                              "command": cmd or "absolute path", "arguments": len(toks),
                                               "delivered": len(got), "first_difference_at": first, "exit": r.rc, "stderr": r.err[-200:],
                                               "invocations": len(r.invocations), "prefix_unchanged": ok_prefix},
                            {"generator": "lib/c04.py big_worker", "seed": seed, "k": k, "i": i})
